@@ -49,6 +49,7 @@ ASSUMPTIONS = [
     "in 40% of the runs the source is a record-by-record replica of the natively built history WITHOUT one or two merged-in revisions (right-hand parents only): they are ghosts in the source, yet the file versions they introduced and later trees still carry are present there; every text version a target inventory refers to and the source holds must then be in the target",
     "sources with ghost-introduced texts are not fetched into plain knit targets (a knit target cannot park a text delta whose basis lies outside the fetched set, which a ghost in the middle of the per-file ancestry makes possible; fetch then raises RevisionNotPresent on the unchanged tree - legacy format, reported separately)",
     "check() reports 'inconsistent parents' for a text version whose introducing revision the repository lacks as soon as that text has per-file parents (it expects none because it cannot derive any); such reports are not counted against the target - the text and its parents are identical in the source, where the introducing revision may be present and check() is clean",
+    "XML-inventory targets (everything but 2a): Revision.inventory_sha1 as recorded in the target must equal inventories.get_sha1s() of the inventory text the target stores for that revision",
     "signatures: a revision fetched by any route must carry the same signature text as in the source",
     "no error injection for knit targets (no write groups, no atomicity claim); the target's check() is required to be clean only when the source's check() is clean (knit sources record per-file parents with revision-graph heads, which check() rejects after a file id was deleted and re-added)",
     "stacked targets: completeness is judged on the stacked repository together with its fallback; in addition the stacked repository alone must hold the parent inventories and new texts of its own revisions (C08's local statement)",
@@ -469,6 +470,15 @@ def execute(sim, plan, _scratch=None):
                 lost = sorted(k for k in refs if k in in_src and k not in in_tgt)
                 if lost:
                     sim.fail("referenced_text", ["referenced_text", conf, tag, "ghost-introduced" if any(k[1].decode() not in mh.revs for k in lost) else "other"], f"{tag}: the target's inventory of {r} refers to text versions {lost[:4]} that the source holds and the target lacks")
+            if tfmt != "2a":
+                # XML-inventory targets: the inventory sha1 a revision records must be the sha1
+                # of the inventory text the target itself stores (a conversion re-serialises it)
+                stored = t.inventories.get_sha1s([(r.encode(),) for r in order_])
+                for r in order_:
+                    recorded = t.get_revision(r.encode()).inventory_sha1
+                    actual = stored.get((r.encode(),))
+                    if actual is not None and recorded != actual:
+                        sim.fail("inventory_sha1", ["inventory_sha1", conf, tag], f"{tag}: revision {r} in the target records inventory_sha1 {recorded!r} but the inventory text the target stores for it has sha1 {actual!r} (source records {s.get_revision(r.encode()).inventory_sha1!r})")
             keys, sp = text_parents(s, mh, order_)
             tp = t.texts.get_parent_map(keys)
             for k in keys:
